@@ -2,6 +2,7 @@ package ast
 
 import (
 	"bytes"
+	"math"
 	"strconv"
 	"strings"
 
@@ -34,8 +35,9 @@ func NewNumber(id *token.Token) (ExpNode, error) {
 		n, err = strconv.ParseUint(nstring, 16, 64)
 	} else {
 		n, err = strconv.ParseUint(nstring, 10, 64)
-		// If an integer is too big let's make it a float
-		if err != nil {
+		// If an integer is too big (it does not fit an int64) let's make it a
+		// float
+		if err != nil || n > math.MaxInt64 {
 			f, err := strconv.ParseFloat(nstring, 64)
 			if err == nil || f != 0 {
 				return Float{Location: loc, Val: f}, nil
